@@ -921,7 +921,7 @@ func (e *Engine) loopWaveInfeasible(st *State) bool {
 	if pc.IsTrue() {
 		return false
 	}
-	s2 := NewSolver(8000)
+	s2 := NewSolver(4000)
 	q := s2.Check(e.b, []*Term{pc}, "loop-feasibility")
 	e.feasQueries++
 	if os.Getenv("GOSMT_PROGRESS") != "" {
